@@ -1117,21 +1117,22 @@ theorem createBranch_inv (cfg : Cascade.Cfg) (lits : Lits) (st : Repo) (name : R
                   · intro hcond
                     simp only [hcond, Bool.false_eq_true, if_false]
 
-/-- **Every exit of `delete_branch`.** -/
+/-- **Every exit of `delete_branch`.** A success has passed the two refusals (live stabilization branch, queued pull
+    requests) whatever the state of the archive tag; an archive tag that exists is on the tip (the resumed deletion:
+    no tag operation), one that does not exist is pushed before the branch is removed. Every other exit has done
+    nothing. -/
 theorem deleteBranch_inv (cfg : Cascade.Cfg) (lits : Lits) (st : Repo) (name : Ref) (recognized : Bool) :
     ((deleteBranch cfg lits st name recognized).outcome = .success →
       ∃ d tip, name = .dest d ∧ st.heads.get (.dest d) = some tip ∧
         (d.isDev = true → stabAlive st.heads d = false) ∧
         (st.useQueue = true → hasVersionQueuedPrs (queuesOf st.g st.heads) d = false) ∧
-        hasTag st.tags (archiveTag lits d) = false ∧
+        (hasTag st.tags (archiveTag lits d) = true → tagCommit st.tags (archiveTag lits d) = some tip) ∧
         (deleteBranch cfg lits st name recognized).ops =
           (if st.useQueue && st.heads.has (delQueueRef d) then [.ref (.delete (delQueueRef d))] else []) ++
-            [.pushTag (archiveTag lits d) tip, .ref (.delete (.dest d))]) ∧
+            ((if hasTag st.tags (archiveTag lits d) then [] else [.pushTag (archiveTag lits d) tip]) ++
+              [.ref (.delete (.dest d))])) ∧
     ((deleteBranch cfg lits st name recognized).outcome ≠ .success →
-      (deleteBranch cfg lits st name recognized).ops = [] ∨
-      ((deleteBranch cfg lits st name recognized).outcome = .failure .tagPush ∧
-        ∃ d, name = .dest d ∧ st.useQueue = true ∧ hasTag st.tags (archiveTag lits d) = true ∧
-          (deleteBranch cfg lits st name recognized).ops = [.ref (.delete (delQueueRef d))])) ∧
+      (deleteBranch cfg lits st name recognized).ops = []) ∧
     (deleteBranch cfg lits st name recognized).resubmit = [] := by
   unfold deleteBranch
   cases hcl : classOf name recognized with
@@ -1152,9 +1153,12 @@ theorem deleteBranch_inv (cfg : Cascade.Cfg) (lits : Lits) (st : Repo) (name : R
     | none => simp [done]
     | some tip =>
       simp only []
-      by_cases h1 : (!Dest.isHotfix d && hasTag st.tags (verText d)) = true
+      by_cases h1 : (hasTag st.tags (archiveTag lits d) && tagCommit st.tags (archiveTag lits d) != some tip) = true
       · simp [h1, fail]
       · simp only [h1, Bool.false_eq_true, if_false]
+        have h1' : hasTag st.tags (archiveTag lits d) = true → tagCommit st.tags (archiveTag lits d) = some tip := by
+          intro ht
+          simpa [ht] using h1
         by_cases h2 : (d.isDev && stabAlive st.heads d) = true
         · simp [h2, fail]
         · simp only [h2, Bool.false_eq_true, if_false]
@@ -1176,22 +1180,17 @@ theorem deleteBranch_inv (cfg : Cascade.Cfg) (lits : Lits) (st : Repo) (name : R
                 by_cases h4 : hasTag st.tags (archiveTag lits d) = true
                 · simp only [h4, if_true]
                   refine ⟨?_, ?_, ?_⟩
-                  · intro h; cases h
                   · intro _
-                    by_cases h5 : st.heads.has (delQueueRef d) = true
-                    · right
-                      simp only [h5, if_true]
-                      exact ⟨by closer, d, by closer, by closer, by closer⟩
-                    · left
-                      simp only [h5, Bool.false_eq_true, if_false]
+                    refine ⟨d, tip, rfl, htip, h2', fun _ => h3', fun _ => h1' h4, ?_⟩
+                    simp [h4]
+                  · intro h; exact absurd rfl h
                   · closer
                 · have h4' : hasTag st.tags (archiveTag lits d) = false := by simpa using h4
                   simp only [h4', Bool.false_eq_true, if_false]
                   refine ⟨?_, ?_, ?_⟩
                   · intro _
-                    refine ⟨d, tip, by closer, by closer, h2', ?_, ?_⟩
-                    · closer
-                    · simp [h4']
+                    refine ⟨d, tip, rfl, htip, h2', fun _ => h3', by simp [h4'], ?_⟩
+                    simp [h4']
                   · intro h; exact absurd rfl h
                   · closer
           · have huq' : st.useQueue = false := by simpa using huq
@@ -1199,16 +1198,17 @@ theorem deleteBranch_inv (cfg : Cascade.Cfg) (lits : Lits) (st : Repo) (name : R
             by_cases h4 : hasTag st.tags (archiveTag lits d) = true
             · simp only [h4, if_true]
               refine ⟨?_, ?_, ?_⟩
-              · intro h; cases h
-              · intro _; left; closer
+              · intro _
+                refine ⟨d, tip, rfl, htip, h2', by simp, fun _ => h1' h4, ?_⟩
+                simp [h4]
+              · intro h; exact absurd rfl h
               · closer
             · have h4' : hasTag st.tags (archiveTag lits d) = false := by simpa using h4
               simp only [h4', Bool.false_eq_true, if_false]
               refine ⟨?_, ?_, ?_⟩
               · intro _
-                refine ⟨d, tip, by closer, by closer, h2', ?_, ?_⟩
-                · closer
-                · simp [h4']
+                refine ⟨d, tip, rfl, htip, h2', by simp, by simp [h4'], ?_⟩
+                simp [h4']
               · intro h; exact absurd rfl h
               · closer
 
